@@ -73,7 +73,10 @@ func (sr *svcRun) viol(sig, what string, detail map[string]any) {
 	sr.c.Violation(sig, what, map[string]any{"kind": sr.sc.Kind, "k": w.K, "interleave": w.Interleave, "disc": w.Disc, "collide": w.Collide, "detail": detail})
 }
 
-const svcGrace = 3 * time.Second
+const (
+	svcGrace  = 5 * time.Second
+	svcStable = 1 * time.Second
+)
 
 func connName(i int) string { return fmt.Sprintf("conn%d", i) }
 
@@ -232,11 +235,18 @@ func (sr *svcRun) agentProbe(magic uint32, endpoint string) (int, string, []byte
 func (sr *svcRun) check(after string) {
 	sr.c.Eval()
 	want := sr.expected()
+	// poll for the expected state; give up when the registries have not moved for
+	// svcStable (the cleanup is one pass of one goroutine) or after svcGrace
 	deadline := time.Now().Add(svcGrace)
 	got := sr.state()
-	for !got.equal(want) && time.Now().Before(deadline) {
-		time.Sleep(20 * time.Millisecond)
-		got = sr.state()
+	lastChange := time.Now()
+	for !got.equal(want) && time.Now().Before(deadline) && time.Since(lastChange) < svcStable {
+		time.Sleep(10 * time.Millisecond)
+		now := sr.state()
+		if !now.equal(got) {
+			lastChange = time.Now()
+		}
+		got = now
 	}
 	detail := func() map[string]any {
 		return map[string]any{"after": after, "state": got, "expected": want}
@@ -469,6 +479,9 @@ func (sr *svcRun) collide() {
 		}
 		if !ok && wantOK {
 			sr.viol("svc-register-refused", "registration of a fresh ExC2 name was refused: "+e, nil)
+		}
+		if ok {
+			s.reserved[name] = true
 		}
 		if ok && wantOK {
 			sr.items = append(sr.items, svcItem{conn: 0, exName: name, endpoint: ep, agent: sr.items[0].agent, magic: sr.items[0].magic, lkind: sr.items[0].lkind})
